@@ -1534,7 +1534,7 @@ PARTS = [
               "character codes and injective over the whole domain, number -> label and the linked block parameters "
               "(xsType <-> xsTypeNum) return the label; the 52 environment letters <-> 0..51; every label is non-trivial",
          bound=lambda t: "all labels of length 1 and 2 over 52 letters"),
-    Part("collections", collections_execute, strategy=collections_strategy, budget={"quick": 500, "thorough": 24000},
+    Part("collections", collections_execute, strategy=collections_strategy, budget={"quick": 400, "thorough": 24000},
          procs={"quick": 8, "thorough": 16},
          rule="Hypothesis: 1-12 single-block assemblies from blueprint text (4 block designs, pin scale, enrichment, height), "
               "edited per component (temperature with/without expansion, nuclide densities scaled/zeroed/added), burnup, massHmBOL, "
